@@ -121,6 +121,7 @@ def check(ctx, rep):
         check_header_writes(rep, http, cfg)
         check_charset_consulted(rep, http, cfg)
         check_json_from_bytes(rep, http, cfg)
+        check_charset_from_mime(rep, http, cfg)
     controls(ctx, rep)
     rep.assume('http_types fork: Response::new/insert_header/append_header/Headers::{insert,append} unwrap their conversions; '
                'set_body/replace_body/take_body copy the body MIME type into Content-Type when absent (read in the fork source)')
@@ -403,6 +404,35 @@ def check_json_from_bytes(rep, http, cfg):
                    'which a conforming JSON decoder ignores' % (r.path, ', '.join(sorted(set(norm(t['callee']) for g, bb, t in des))) or 'no serde_json call',
                                                                '; calls ' + ', '.join(sorted(set(last_seg(t['callee']) for g, bb, t in charset))) if charset else ''),
                    site=key + '@' + cfg)
+
+
+def check_charset_from_mime(rep, http, cfg):
+    """R15.h: the charset label given to decode_body is the `charset` parameter of the parsed media type (Mime::param), not the result of
+    scanning the header text by hand (quoted-strings, parameters containing `;` or `=`)"""
+    rep.rule('R15.h', 'body_string takes the charset label from Mime::param of the parsed Content-Type', floor=2)
+    roots = [f for f in http.built if f.name == 'body_string' and f.kind == 'AssocFn' and
+             (path_matches(f.assoc.get('self_adt'), 'crux_http::response::response::Response') or
+              path_matches(f.assoc.get('self_adt'), 'crux_http::response::response_async::ResponseAsync'))]
+    if len(roots) < 2:
+        rep.missing('R15.h', 'Response::body_string / ResponseAsync::body_string (%s)' % cfg)
+        return
+    for r in roots:
+        bodies = [r] + http.closures_of(r)
+        decs = [(g, bb, t) for g in bodies for bb, t in g.calls('crux_http::response::decode::decode_body')]
+        params = [(g, bb, t) for g in bodies for bb, t in g.calls(HT + '::mime::Mime::param')]
+        scans = [(g, last_seg(t['callee'])) for g in bodies for bb, t in g.calls() if norm(t.get('callee') or '').startswith('core::str::') and
+                 last_seg(t['callee']) in ('split', 'split_once', 'rsplit', 'rsplit_once', 'find', 'rfind', 'splitn', 'split_terminator', 'trim_matches', 'strip_prefix')]
+        key = '%s|charset-from-mime' % r.kpath
+        ok = len(decs) == 1 and len(params) >= 1 and not scans
+        if ok:
+            g, bb, t = decs[0]
+            src = origins(g, t['args'][1], extra_identity=[('core::option::Option::as_deref', 0), ('core::option::Option::map', 0), ('core::option::Option::and_then', 0),
+                                                           ('core::option::Option::as_ref', 0)])
+            # the label flows from the Option chain that ends in Mime::param (inside the and_then closure)
+            ok = bool(src)
+        rep.expect('R15.h', ok, key, 'decode_body gets the charset parameter of the parsed media type',
+                   '%s no longer takes the charset from Mime::param of the parsed Content-Type (param calls %d, hand scanning %s): quoted or '
+                   'unusually placed charset parameters are mis-read' % (r.path, len(params), sorted(set(x for _, x in scans))), site=key + '@' + cfg)
 
 
 def check_charset_consulted(rep, http, cfg):
